@@ -438,7 +438,9 @@ func (l *lexer) scan() {
 						p = 0
 						lin = l.line
 						col = l.column
-					} else if l.tag.attr == "type" {
+					} else if l.tag.attr == "type" && l.tag.index <= p {
+						// (l.tag.index is greater than p if the value contains
+						// a statement or a show: the type is not known.)
 						switch l.tag.name {
 						case "script":
 							typ := l.src[l.tag.index:p]
